@@ -80,9 +80,9 @@ class World:
     def open_initial(self):
         from geoh5py import Workspace
 
-        kw = {"version": self.cfg.get("version", 2.1), "ga_version": "4.2", "contributors": ["sim"]}
         names = ["A", "B"] if self.cfg.get("two_ws") else ["A"]
         for name in names:
+            kw = {"version": self.version(name), "ga_version": "4.2", "contributors": ["sim"]}
             handle = Handle(name, self.sim.path(f"{name}.geoh5"))
             if name == "A" and self.cfg.get("start") == "bytesio":
                 handle.ws = Workspace(**kw)
@@ -94,6 +94,12 @@ class World:
             handle.sessions = 1
             self.h[name] = handle
         self.sim.record("open", names, self.cfg.get("start"))
+
+    def version(self, h: str) -> float:
+        """Format version of a workspace (the second one may be of another version than the first)."""
+        if h == "B" and self.cfg.get("version_b") is not None:
+            return self.cfg["version_b"]
+        return self.cfg.get("version", 2.1)
 
     def ent(self, h: str, uid: str, fresh: bool = False):
         """The live entity for a model uid: through a held reference or a fresh lookup."""
@@ -333,7 +339,7 @@ class World:
         cls = rng.choice(build.GROUP_CLASSES)
         if self.prop == "C12" and rng.random() < 0.2:
             cls = "DrillholeGroup"
-        if self.cfg.get("version", 2.1) < 2.0 and cls == "DrillholeGroup" and rng.random() < 0.5:
+        if self.version(h) < 2.0 and cls == "DrillholeGroup" and rng.random() < 0.5:
             cls = "ContainerGroup"
         return {"cls": cls, "name": build.name(rng), "t": self.target(rng, h, "container")}
 
@@ -355,7 +361,7 @@ class World:
             return outcome if outcome != "ok" else "raised:None"
         rec = snapshot.record(ent)
         self.expect_fields(rec, {"name": op["name"], "parent": parent_uid, "kind": "group"}, "create")
-        if op["cls"] == "DrillholeGroup" and self.cfg.get("version", 2.1) >= 2.0:
+        if op["cls"] == "DrillholeGroup" and self.version(h) >= 2.0:
             rec["concat_group"] = True
         self.h[h].model.add(rec, op["id"], 0)
         self.note_created(op, h, [rec["uid"]])
@@ -1984,7 +1990,12 @@ class World:
         pending = sum(1 for u, z in handle.model.zombies.items() if not z.get("collected"))
         if pending:
             self.sim.probe("close_with_uncollected_removed")
-        ws.close()
+        try:
+            ws.close()
+        except Exception as err:  # pylint: disable=broad-except
+            raise Violation(self.prop if self.prop in ("C01", "C11", "C12") else "C01", "close_raises",
+                            f"closing the workspace raised {type(err).__name__}: {str(err)[:120]} -- what was completed cannot reach the file",
+                            {"exc": type(err).__name__}) from None
         self.sim.fault("ev:close")
         self.check_gc()
         del ws
